@@ -4,6 +4,7 @@ import (
 	"fmt"
 	"time"
 
+	mux "github.com/cbeuw/Cloak/internal/multiplex"
 	"github.com/cbeuw/Cloak/internal/simsync"
 )
 
@@ -25,12 +26,19 @@ type C13ChurnScenario struct {
 	Writes      []int  `json:"writes"`
 	ServerClose []bool `json:"server_close"`
 	Batch       int    `json:"batch"` // streams opened concurrently
+	// LongLived: the first stream stays open while all the others come and go;
+	// the accepting side sends it late frames that sit on a stalled connection;
+	// the opener then closes it, opens one more stream, and the late frames arrive
+	LongLived bool `json:"long_lived,omitempty"`
 }
 
 func genC13Churn(g *Gen) any {
-	sc := &C13ChurnScenario{NStream: g.Int(17, 48), Batch: g.Pick(1, 4, 16)}
+	sc := &C13ChurnScenario{NStream: g.Pick(g.Int(17, 48), g.Int(17, 48), g.Int(66, 110)), Batch: g.Pick(1, 4, 16)}
 	sc.Sess = SessParams{Method: byte(g.Int(0, 3)), NConn: g.Int(2, 4), InactS: 3600, Partial: g.Bool(0.3)}
 	sc.Sess.Stalls = []StallPlan{{Link: g.Int(0, sc.Sess.NConn-1), Dir: 0, DurMS: g.Pick(2000, 5000)}}
+	if g.Bool(0.35) {
+		sc.LongLived = true
+	}
 	for i := 0; i < sc.NStream; i++ {
 		sc.Writes = append(sc.Writes, g.Int(1, 4))
 		sc.ServerClose = append(sc.ServerClose, g.Bool(0.7))
@@ -43,6 +51,7 @@ func runC13Churn(c *Ctx, scAny any) {
 	c.Net.TapOn = true
 	sw := NewSessWorld(c, sc.Sess, nil, nil)
 	accepted := 0
+	churnDone, lateWritten := false, false
 	simsync.Go("h:accept", func() {
 		for {
 			conn, err := sw.S.Accept()
@@ -56,6 +65,30 @@ func runC13Churn(c *Ctx, scAny any) {
 				// either close actively or serve until the opener closes
 				if _, err := conn.Write([]byte{0xA5, byte(n)}); err != nil {
 					return
+				}
+				if sc.LongLived && conn.(*mux.Stream).VerifID() == 1 {
+					// the long-lived stream: late frames, some of which sit on the stalled
+					// connection while the opener closes the stream
+					for !churnDone {
+						Sleep(50 * time.Millisecond)
+					}
+					// everything towards the opener is held up for three seconds from now on
+					for _, l := range sw.Links {
+						c.Net.Stall(l.Dir[1], 3*time.Second)
+					}
+					for k := 0; k < 8; k++ {
+						if _, err := conn.Write([]byte{0xA6, byte(k), 1, 2, 3}); err != nil {
+							break
+						}
+					}
+					lateWritten = true
+					buf := make([]byte, 4096)
+					for {
+						if _, err := conn.Read(buf); err != nil {
+							conn.Close()
+							return
+						}
+					}
 				}
 				if n-1 < len(sc.ServerClose) && sc.ServerClose[n-1] {
 					conn.Close()
@@ -91,7 +124,36 @@ func runC13Churn(c *Ctx, scAny any) {
 		st.Read(buf)
 		st.Close()
 	}
+	longDone := !sc.LongLived
 	simsync.Go("h:opener", func() {
+		var long *mux.Stream
+		if sc.LongLived {
+			st, err := sw.C.OpenStream()
+			if err != nil {
+				c.Fail("setup", "error:open", "OpenStream: %v", err)
+				return
+			}
+			long = st
+			long.Write([]byte{0x77, 0, 0, 0})
+			defer func() {
+				// every other stream has come and gone: the accepting side now sends its
+				// late frames (held up on the way); close the long-lived stream, open
+				// one more, and let them arrive
+				churnDone = true
+				for !lateWritten {
+					Sleep(50 * time.Millisecond)
+				}
+				long.Close()
+				if st, err := sw.C.OpenStream(); err == nil {
+					st.Write([]byte{0x78, 1, 2, 3})
+					buf := make([]byte, 64)
+					st.SetReadDeadline(time.Now().Add(20 * time.Second))
+					st.Read(buf)
+					st.Close()
+				}
+				longDone = true
+			}()
+		}
 		for opened < sc.NStream {
 			for b := 0; b < sc.Batch && opened < sc.NStream; b++ {
 				i := opened
@@ -136,7 +198,23 @@ func runC13Churn(c *Ctx, scAny any) {
 			}
 		}
 	}
-	if accepted > sc.NStream {
+	// C12: at this quiescent moment the count of active streams equals the number
+	// of open streams, on both sides (every stream of this workload was closed)
+	for side, sesh := range []*mux.Session{sw.C, sw.S} {
+		open, _, cnt, closed := sesh.VerifDigest()
+		nOpen := 0
+		for _, s := range open {
+			if !s.Closed {
+				nOpen++
+			}
+		}
+		if !closed && (int(cnt) != nOpen || nOpen != 0) {
+			c.Fail("count", "count:mismatch", "%s session at final quiescence: %d streams counted active, %d open in its table, although every stream anybody opened was closed (%d streams were opened and closed, the accepting side was handed %d)", []string{"client", "server"}[side], cnt, nOpen, sc.NStream, accepted)
+			return
+		}
+	}
+	_ = longDone
+	if accepted > sc.NStream+2 {
 		c.Probe("accept_handed_out_more_streams_than_opened")
 	}
 	c.Probe(fmt.Sprintf("churn_streams_%d", sc.NStream/8*8))
@@ -151,4 +229,6 @@ func init() {
 			return p
 		}})
 	plans["C13"] = append(plans["C13"], "c13-churn")
+	// C12: stream-table / open-count equality after long histories of streams
+	plans["C12"] = append(plans["C12"], "c13-churn")
 }
